@@ -84,6 +84,24 @@ def observe(ctx, case, apk_bytes):
         ('min_sdk', a.get_min_sdk_version), ('target_sdk', a.get_target_sdk_version), ('max_sdk', a.get_max_sdk_version),
         ('effective_target_sdk', a.get_effective_target_sdk_version), ('features', a.get_features),
         ('libraries', a.get_libraries), ('valid', a.is_valid_APK)]
+    def other_queries():
+        return [a.get_app_name, a.get_app_icon, a.get_activity_aliases, a.is_androidtv, a.is_wearable, a.is_leanback,
+                a.is_multidex, a.get_declared_permissions, a.get_requested_aosp_permissions, a.get_requested_third_party_permissions,
+                lambda: list(a.get_all_attribute_value('activity', 'name', enabled='false')),
+                lambda: list(a.get_all_attribute_value('service', 'name', exported='true')),
+                lambda: list(a.get_all_attribute_value('uses-permission', 'name', maxSdkVersion='18')),
+                lambda: list(a.get_all_attribute_value('uses-library', 'name', required='false')),
+                lambda: a.get_attribute_value('application', 'label')]
+    if len(apk_bytes) % 3 == 0:
+        # on a fresh object, narrower (filtered) queries come first: the listed queries that follow must not be
+        # affected by them
+        ctx.count('filtered_queries_before_first_round')
+        for other in other_queries():
+            try:
+                other()
+            except Exception:
+                ctx.count('history_other_query_raised')
+
     def norm(v):
         return sorted(v) if isinstance(v, (set, frozenset)) else (list(v) if isinstance(v, (list, tuple)) else v)
     for name, fn in queries:
@@ -95,12 +113,7 @@ def observe(ctx, case, apk_bytes):
     # history: the answers must not depend on which other queries were made before on the same object, nor on the order.
     # Other read-only queries are made (application label / icon go through the launcher lookup), then every query is
     # repeated in a rotated order and must answer as it did the first time.
-    others = [a.get_app_name, a.get_app_icon, a.get_activity_aliases, a.is_androidtv, a.is_wearable, a.is_leanback,
-              a.is_multidex, a.get_declared_permissions, a.get_requested_aosp_permissions, a.get_requested_third_party_permissions,
-              lambda: list(a.get_all_attribute_value('activity', 'name', enabled='false')),
-              lambda: list(a.get_all_attribute_value('uses-permission', 'name', maxSdkVersion='18')),
-              lambda: a.get_attribute_value('application', 'label'), lambda: a.get_element('application', 'label')
-              if hasattr(a, 'get_element') else None]
+    others = other_queries()
     for other in others:
         if other is None:
             continue
